@@ -7,7 +7,7 @@
    Specification: Spec/Draft4.v ([conforms], [inline]).  [rx_search] is the
    table of recognisers for the schema regexes, tied to re.search by O-rx. *)
 From MF Require Import Lib.Base Lib.Json Lib.PyDict Gen.Schemas Model.Case Model.SchemaStore Model.Schema
-  Model.Validator Spec.Versioned Spec.Draft4 Proofs.C07 Proofs.C07F.
+  Model.Validator Spec.Versioned Spec.Draft4 Proofs.C07 Proofs.C07Paths Proofs.C07F.
 Open Scope Z_scope.
 
 (* [U] iter_errors_complete: for every well-formed schema tree (any nesting of
@@ -46,9 +46,11 @@ Print Assumptions C07_validate_verdict.
 
 (* [U] messages_cover, part 1: when validate returns, there is one message per
    schema error, in order; its "message" is ERROR: Invalid value in KEY where
-   KEY is the last key of the error path or, for a path that is empty or ends
-   in a list index, the __type__ of the object it points to - for paths of any
-   depth *)
+   KEY is the last key of the error path; for a path that is empty or ends in
+   a list index, the __type__ of the object it points to; and for a path that
+   ends in a list index pointing to a non-object (an item of a list-valued
+   keyword such as SIZE, EXTENT, POINTS) the last key of the path, i.e. the
+   keyword holding the list ([target]) - for paths of any depth *)
 Theorem C07_messages_cover :
   forall d errs msgs, get_error_messages d errs = Ok msgs -> Forall2 (message_for d) errs msgs.
 Proof. exact messages_cover_lemma. Qed.
@@ -78,31 +80,48 @@ Proof.
 Qed.
 Print Assumptions C07_errors_are_located.
 
-(* [R] validate_never_raises is FALSE of the faithful model: the dictionary of
-   MAP SIZE 10.5 20 END makes validate raise TypeError - the single error has
-   path ["size", 0], which create_message takes for "an object in a list" *)
-Theorem C07_validate_never_raises_refuted :
-  fst (validate schema_files size_doc (Str "map") None init_state) = Err PyTypeError /\
-  ierr (expand schema_files schema_map) (to_json (convert_lowercase size_doc))
-  = [mk_verr [PKey (Str "size"); PIdx 0%N] (Str "type")] /\
-  target size_doc (mk_verr [PKey (Str "size"); PIdx 0%N] (Str "type")) = Ok (VFloat 105 (-1), None).
-Proof. exact (conj size_doc_raises size_doc_error). Qed.
-Print Assumptions C07_validate_never_raises_refuted.
+(* [U] validate_never_raises: for every schema tree the model covers and every
+   root dictionary of the shape loads / create produce - keys stored lower-case
+   and once, a string __type__ on the root and on every dictionary that is a
+   member of a list, no __position__ records (include_position=False, the
+   default) - validate returns messages and does not raise; the same for a list
+   of such dictionaries.  Proof: every error path of the model of iter_errors
+   leads to a node of the instance (C07_error_paths_valid), the same path can
+   be followed in the original dictionary, and create_message finds a
+   dictionary to name in each of its four cases (since commit 4abf0be an error
+   on an item of a list-valued keyword names the keyword holding the list).
+   PARTIAL with respect to the property text in two ways: that loads / create
+   produce [root_ok] dictionaries is an assumption about the transformer
+   (checked on every document by the hunter), and dictionaries carrying
+   __position__ records are covered by the guarded statement below and by
+   O-val only. *)
+Theorem C07_validate_never_raises_partial :
+  forall tree d, wf_schema tree = true -> root_ok d = true -> exists msgs, run_validator tree d = Ok msgs.
+Proof. exact validate_never_raises_lemma. Qed.
+Print Assumptions C07_validate_never_raises_partial.
 
-(* [U] the guarded statement: validate returns (does not raise) whenever every
-   error is about a dictionary - no error path ending in a list index below a
-   non-object -, that dictionary names itself by a string __type__ when the
-   path does not end in a key, and it carries no __position__ record.
-   PARTIAL with respect to "for every dictionary produced by loads or create":
-   that such dictionaries meet the guard for all errors outside list-valued
-   keywords, and the case with __position__ records, are covered by the
-   correspondence runner O-val and the hunter only. *)
-Theorem C07_validate_never_raises_guarded_partial :
+Theorem C07_validate_list_never_raises_partial :
+  forall tree ds, wf_schema tree = true -> forallb root_ok ds = true ->
+    exists msgs, run_validator tree (VList ds) = Ok msgs.
+Proof. exact validate_list_never_raises_lemma. Qed.
+Print Assumptions C07_validate_list_never_raises_partial.
+
+(* [U] every error path of the model of iter_errors leads to a node of the
+   instance (objects with distinct keys), for every schema tree *)
+Theorem C07_error_paths_valid :
+  forall s j e, jnodup j = true -> In e (ierr s j) -> valid j e.
+Proof. exact ierr_paths_valid. Qed.
+Print Assumptions C07_error_paths_valid.
+
+(* [U] with position records (or any other dictionary tree): validate returns
+   whenever every error has a dictionary as its target that names itself when
+   the message is not named after a key, and that carries no position record *)
+Theorem C07_validate_never_raises_guarded :
   forall tree d, wf_schema tree = true -> not_list d ->
     (forall e, In e (ierr tree (to_json (convert_lowercase d))) -> guard d e) ->
     exists msgs, run_validator tree d = Ok msgs.
 Proof. exact validate_never_raises_guarded_lemma. Qed.
-Print Assumptions C07_validate_never_raises_guarded_partial.
+Print Assumptions C07_validate_never_raises_guarded.
 
 (* [U] verdict_case_insensitive: lower-casing is idempotent, the verdict only
    depends on the lower-cased form, and changing nothing but the letter case of
@@ -158,3 +177,16 @@ Example C07_example :
      Some (VStr (Str "ERROR: Invalid value in WIDTH"));
      Some (VStr (Str "ERROR: Invalid value in TYPE"))].
 Proof. exact deep_fault_messages. Qed.
+
+(* the former counterexample to validate_never_raises (MAP SIZE 10.5 20 END,
+   refuted before commit 4abf0be): validate now returns one message, located at
+   ["size", 0] and naming SIZE; the document meets the hypothesis of
+   C07_validate_never_raises_partial *)
+Example C07_former_witness :
+  match fst (validate schema_files size_doc (Str "map") None init_state) with
+  | Ok msgs => map (fun m => (msg_field m (Str "path"), msg_field m (Str "message"))) msgs
+  | Err _ => []
+  end
+  = [(Some (VList [VStr (Str "size"); VInt 0]), Some (VStr (Str "ERROR: Invalid value in SIZE")))]
+  /\ root_ok size_doc = true /\ root_ok deep_fault_doc = true.
+Proof. exact (conj size_doc_message example_docs_root_ok). Qed.
